@@ -138,6 +138,30 @@ struct FindPrototypeByCallable : public FindPrototypeByCallableFromIndex <0, Pro
 {
 };
 
+// Drop the first N prototypes of a prototype list.
+// FindPrototypeByCallableFromIndex<N, List, ...> numbers the first prototype of List as N,
+// so a search that resumes at index N must be given the list without its first N prototypes.
+template <int N, typename PrototypeList_>
+struct DropPrototypes;
+
+template <int N, typename First, typename ...Others>
+struct DropPrototypes <N, HeterTuple<First, Others...> >
+{
+	using Type = typename DropPrototypes<N - 1, HeterTuple<Others...> >::Type;
+};
+
+template <typename First, typename ...Others>
+struct DropPrototypes <0, HeterTuple<First, Others...> >
+{
+	using Type = HeterTuple<First, Others...>;
+};
+
+template <int N>
+struct DropPrototypes <N, HeterTuple<> >
+{
+	using Type = HeterTuple<>;
+};
+
 template <int N, typename PrototypeList_, typename ...InArgs>
 struct FindPrototypeByArgsFromIndex;
 
